@@ -26,6 +26,9 @@ Ltac minv H :=
   let a := fresh "a" in let s1 := fresh "s" in let E := fresh "E" in
   apply bind_inv in H; destruct H as (a & s1 & E & H).
 
+Tactic Notation "minva" hyp(H) ident(a) ident(s1) ident(E) :=
+  apply bind_inv in H; destruct H as (a & s1 & E & H).
+
 (* ---- frames ---------------------------------------------------------------------------------- *)
 
 (* what the tile layer never changes *)
